@@ -135,16 +135,26 @@ def resolve_loop_rule(s_tier):
         sk = [z3.Int("sk%d_%s" % (i, tag)) for i in range(2)]
         return [("%s: %s" % (tag, name), f(*sk[:ar])) for name, ar, f in inv]
 
-    def prove_all(gs, facts, what):
+    def prove_all(gs, facts, what, qf_facts=None):
         t = 0.0
         for name, g in gs:
-            r = smt.prove(g, facts, tier=s_tier, name=name, timeout_ms=20000 if s_tier == "quick" else 90000)
-            t += r.time_s
-            if r.status != core.PROVED:
-                r.detail = "%s: premise `%s` of the loop rule is not valid | %s" % (what, name, r.detail)
-                if r.status == core.REFUTED:
-                    r.replay, r.witness_id = native_plumbing_small(), "resolve-loop:%s" % name.split(":")[1].strip()[:40]
-                return r, t
+            r = None
+            if qf_facts is not None:
+                # first attempt: hypotheses instantiated over a pool of index terms (quantifier-free: fast and independent of the solver's instantiation heuristics);
+                # a counter-model of the instances only means the pool was too small -- the quantified query decides then
+                r = smt.prove(g, qf_facts, tier=s_tier, name=name, timeout_ms=10000, fallback=False)
+                t += r.time_s
+                if r.status != core.PROVED:
+                    r = None
+            if r is None:
+                r = smt.prove(g, facts, tier=s_tier, name=name, timeout_ms=20000 if s_tier == "quick" else 90000)
+                t += r.time_s
+            if r.status == core.PROVED:
+                continue
+            r.detail = "%s: premise `%s` of the loop rule is not valid | %s" % (what, name, r.detail)
+            if r.status == core.REFUTED:
+                r.replay, r.witness_id = native_plumbing_small(), "resolve-loop:%s" % name.split(":")[1].strip()[:40]
+            return r, t
         return None, t
 
     class Ghost:
@@ -235,10 +245,22 @@ def resolve_loop_rule(s_tier):
             for tt in terms:
                 inst.append(f(tt))
         facts = axioms + hyp + pc + lv.facts + inst
+        # instance pool for the quantifier-free attempt
+        pool = [sk[0], sk[1], p, curr, d_, gpre.QJ(p), gpre.QR(p), L0, pre.N, pre.QD(sk[0]), gpre.QJ(sk[0]), gpre.QR(sk[0]), gpre.WD(sk[0], sk[1]), gpre.AD(sk[0], sk[1]),
+                gpre.WR(sk[0]), gpre.AR(sk[0]), gpre.WD(d_, gpre.QJ(p)), gpre.AD(d_, gpre.QJ(p)), sk[0] - L0, sk[1] - L0]
+        qf = [E.NREQ >= 0] + pc + lv.facts + inst
+        for name_, ar, f in invariant(pre_view, gpre):
+            qf += [f()] if ar == 0 else ([f(a) for a in pool] if ar == 1 else [f(a, b) for a in pool for b in pool])
+        for ar, f in lv.schemas:
+            qf += [f(a) for a in pool]
+        classes = [cpop, cdep] + [pre.tcls(a) for a in pool]
+        for c0 in classes:
+            qf += [E.NDEP(c0) >= 0, E.RANK(c0) >= 0]
+            qf += [z3.Implies(z3.And(j0 >= 0, j0 < E.NDEP(c0)), E.RANK(E.depcls(c0, j0)) < E.RANK(c0)) for j0 in (sk[1], gpre.QJ(p), gpre.QJ(sk[0]), sk[0] - L0)]
         gs = goals(invariant(lv, g1), "after")
         gs += [("after: the dependencies pushed are those of the task just reached, tagged with its index", z3.And(cdep == cpop, dpush == curr))]
         gs += [("after: bound " + d, b) for d, b in lv.bounds]
-        r, t = prove_all(gs, facts, "body, path %s" % [e[0] for e in ev])
+        r, t = prove_all(gs, facts, "body, path %s" % [e[0] for e in ev], qf_facts=qf)
         total += t
         nprem += len(gs)
         if r:
